@@ -91,6 +91,12 @@ def handle (op : String) (a : Json) : Except String Json := do
     return match loadGate r with
       | .ok _ => Json.mkObj [("ok", Json.bool true)]
       | .error e => Json.mkObj [("raise", Json.str e.name)]
+  | "save_gate" =>
+    let r : SaveRequest := { suffixJson := ← fldBool a "suffix_json",
+                             format := (fldOpt a "format").bind (·.getStr?.toOption) }
+    return match saveGate r with
+      | .ok _ => Json.mkObj [("ok", Json.bool true)]
+      | .error e => Json.mkObj [("raise", Json.str e.name)]
   | "roundtrip" =>
     let c ← getCollection a
     let n ← fldNat a "n"
